@@ -203,7 +203,11 @@ check(
 check(
     "C09",
     runs=[dict(harness="C09_threads", flavour="tsan", shards=6, timeout={"quick": 1800, "thorough": 14400}),
-          dict(harness="C09_threads", flavour="plain", shards=6, opts={"scale": "5"}, timeout={"quick": 1800, "thorough": 14400})],
+          dict(harness="C09_threads", flavour="plain", shards=6, opts={"scale": "5"}, timeout={"quick": 1800, "thorough": 14400}),
+          # thorough only: a reduced quick workload under valgrind helgrind (a second race detector with a different algorithm); only
+          # reports with a dsplib frame are taken, helgrind does not model the monitor's own std::atomic counters
+          dict(harness="C09_threads", flavour="plain", shards=6, wrapper="helgrind", tiers=("thorough",), harness_tier="quick",
+               opts={"scale": "0.2"}, timeout={"quick": 3600, "thorough": 14400})],
     rule=("rounds of 2..16 threads released from a barrier; each thread runs a seeded random mix of (a) solve() on plan objects SHARED by all "
           "threads - FftPlan of every kind (small, radix-2, factor trees with prime / power-of-two / Bluestein leaves, direct prime, dft3), "
           "FftPlanR (even-packed, odd composite, prime), IfftPlan, IfftPlanR, CztPlan - created in the main thread, which keeps using the "
@@ -214,7 +218,7 @@ check(
           "build repeats the workload with 5x the iterations. non-trivial = round in which calls overlapped on a shared plan."),
     min_distinct={"quick": 32, "thorough": 400},
     min_obs={"quick": {"overlapping_calls_on_shared_plans": 5000}, "thorough": {"overlapping_calls_on_shared_plans": 50000}},
-    technique="ThreadSanitizer (happens-before race detection) over a barrier-released stress workload with injected yields, plus sequential-vs-concurrent result comparison",
+    technique="ThreadSanitizer (happens-before race detection) over a barrier-released stress workload with injected yields, plus sequential-vs-concurrent result comparison; thorough: the workload again under valgrind helgrind",
     level_text=("The real library runs under ThreadSanitizer while 2..16 threads hammer shared plan objects of every kind and their own "
                 "caches; any race report or any result that differs from the sequential one is a violation. Held on the interleavings "
                 "the scheduler and the yield hook produced (overlap counts per plan kind are in the evidence)."),
